@@ -19,6 +19,14 @@ AccessorsOK(o) ==
 PolicyStep(pre, ev) ==
   IF ev.panic THEN FALSE
   ELSE IF ~SWellFormed(StOf(pre)) THEN TRUE
+  \* clone mode (C16 traces judged under the policy property): the copy is in the same abstract state and follows the policy
+  ELSE IF ev.op = "clone" THEN ("unsupported" \in DOMAIN ev) \/ (StOf(ev.obs) = StOf(pre) /\ StOf(ev.obs2) = StOf(pre))
+  ELSE IF ev.op = "both"
+       THEN LET e2 == [ev EXCEPT !.op = ev.op2] IN
+            IF ev.op2 \in SpecOps
+            THEN LET x == SApply(e2, StOf(pre)) IN x.st = StOf(ev.obs) /\ x.st = StOf(ev.obs2) /\ x.ret = ev.ret /\ x.ret = ev.ret2
+            ELSE StOf(ev.obs) = StOf(pre) /\ StOf(ev.obs2) = StOf(pre)
+  ELSE IF ev.op \in {"clone_only", "clone_dropped"} THEN StOf(ev.obs) = StOf(pre)
   ELSE IF ev.op \in SpecOps
        THEN LET x == SApply(ev, StOf(pre)) IN x.st = StOf(ev.obs) /\ x.ret = ev.ret
        ELSE StOf(ev.obs) = StOf(pre)
